@@ -10,7 +10,9 @@ func TestVerifFallbackChunkSlice(t *testing.T) {
 	cases, bad := 0, 0
 	check := func(n, parts int) {
 		cases++
-		in := make([]uint16, n)
+		// the input's capacity varies (exact, a little spare, a fixed 1024 like a pre-sized buffer): the share
+		// is a function of the elements, not of the spare room behind them
+		in := make([]uint16, n, n+[]int{0, 1, 7, 1024}[cases%4])
 		for i := range in {
 			in[i] = uint16(i)
 		}
